@@ -11,7 +11,8 @@ histories of **any** length:
   violation `translate_three_frames_not_rect` of the excluded case; `compress_empty_unchanged`);
 * `step_names_nodup` / `run_names_nodup` — names stay pairwise distinct unless the caller edits names;
 * `step_refines` / `run_refines` — refinement to the plain-list reference model `Gv.Spec.stepOp`, for
-  all 31 operations of the history language (`Unalign`, `RenameRegexp` and `SetAlphabet` included);
+  all 36 operations of the history language (`Unalign`, `RenameRegexp`, `SetAlphabet`,
+  `ReverseComplementSequences`, `DiffWithFirst`, `ReplaceMatchChars`, `Mask` and `MaskOccurences` / `MaskUnique` included);
 * `lookup_paths_agree`, `idByName_spec`, `byName_found_iff`, `obs_*` — the access paths agree;
 * `add_wrong_length_rejected` — a sequence of the wrong length is rejected, state unchanged.
 
@@ -136,6 +137,35 @@ theorem step_inv (b : Bag) (h : Inv b) (op : Op) (hw : OpWF b op) : Inv (stepOp 
     · exact h
     · exact inv_renameRegexp names b h
   | setAlpha a => exact inv_setAlphabet a b h
+  | revcompSeqs names => exact inv_reverseComplementSequences names b h
+  | diffFirst =>
+    simp only [stepOp]
+    split
+    · exact h
+    · split
+      · exact h
+      · rename_i r hr; exact (sameShape_diffWithFirst hr).inv h
+  | replaceMatch =>
+    simp only [stepOp]
+    split
+    · exact h
+    · split
+      · exact h
+      · rename_i r hr; exact (sameShape_replaceMatchChars hr).inv h
+  | mask refseq start len mr nogap noref =>
+    simp only [stepOp]
+    split
+    · exact h
+    · split
+      · exact h
+      · rename_i r hr; exact (sameShape_maskBag hr).inv h
+  | maskOcc refseq maxOcc mr =>
+    simp only [stepOp]
+    split
+    · exact h
+    · split
+      · exact h
+      · rename_i r hr; exact (sameShape_maskOccBag hr).inv h
 
 /-- **Every reachable state satisfies the invariant**: induction over histories of any length, from
 any state satisfying it (in particular from the empty containers). -/
@@ -417,6 +447,35 @@ theorem step_rect (b : Bag) (h : Rect b) (op : Op) (hw : RectOK b op) : Rect (st
     · exact h
     · exact rect_renameRegexp names h
   | setAlpha a => exact rect_setAlphabet a h
+  | revcompSeqs names => exact rect_reverseComplementSequences names h
+  | diffFirst =>
+    simp only [stepOp]
+    split
+    · exact h
+    · split
+      · exact h
+      · rename_i r hr; exact (sameShape_diffWithFirst hr).rect h
+  | replaceMatch =>
+    simp only [stepOp]
+    split
+    · exact h
+    · split
+      · exact h
+      · rename_i r hr; exact (sameShape_replaceMatchChars hr).rect h
+  | mask refseq start len mr nogap noref =>
+    simp only [stepOp]
+    split
+    · exact h
+    · split
+      · exact h
+      · rename_i r hr; exact (sameShape_maskBag hr).rect h
+  | maskOcc refseq maxOcc mr =>
+    simp only [stepOp]
+    split
+    · exact h
+    · split
+      · exact h
+      · rename_i r hr; exact (sameShape_maskOccBag hr).rect h
 
 /-- **Every reachable alignment is rectangular**: induction over histories of any length. -/
 theorem run_rect (ops : List Op) (b : Bag) (h : Rect b) (hw : HistRectOK b ops) : Rect (finalState b ops) := by
@@ -555,11 +614,11 @@ def OpWFR (b : Bag) : Op → Prop
   | .sample _ perm => IsPerm perm b.rows.length
   | _ => True
 
-/-- **One step refines the reference model** — every one of the 31 operations of the history
+/-- **One step refines the reference model** — every one of the 36 operations of the history
 language (`add`, `ignore`, `clear`, `append`, `concat`, `rename`, `appendId`, `cleanNames`, `trimNames`,
 `trimAuto`, `sort`, `permute`, `filter`, `dedup`, `rmSeqs`, `translate`, `clone`, `sample`, `toUpper`,
 `toLower`, `replace`, `setChar`, `trimSeqs`, `autoAlpha`, `revcomp`, `replaceChar`, `rmGapSites`, `compress`,
-`unalign`, `renameRe`, `setAlpha`), arbitrary arguments: whenever the reference
+`unalign`, `renameRe`, `setAlpha`, `revcompSeqs`, `diffFirst`, `replaceMatch`, `mask`, `maskOcc`), arbitrary arguments: whenever the reference
 specifies the outcome of the operation on the observable content, the Go-shaped model yields exactly
 that content (names, row order, residues, policy, alphabet, kind) and that status, and the strong
 invariant holds again. -/
@@ -599,6 +658,11 @@ theorem step_refines (b : Bag) (h : Good b) (op : Op) (hw : OpWFR b op)
     | unalign => exact ref_unalign h
     | renameRe ok names => exact ref_renameRe h ok names
     | setAlpha a => exact ref_setAlpha h a
+    | revcompSeqs names => exact ref_revcompSeqs h names
+    | diffFirst => exact ref_diffFirst h
+    | replaceMatch => exact ref_replaceMatch h
+    | mask refseq start len mr nogap noref => exact ref_mask h refseq start len mr nogap noref
+    | maskOcc refseq maxOcc mr => exact ref_maskOcc h refseq maxOcc mr
   exact this s' st hs
 
 /-- the reference model run over a history: final content and the status of every step; `none` as
@@ -758,5 +822,30 @@ example : HistRectOK (newAlign 1) [.add "a" [65, 45, 45], .unalign, .add "b" [65
 example : NamesNodup (finalState (newAlign 1) [.add "a" [65, 45], .add "a" [45, 67], .unalign, .add "a" [71]]) :=
   run_names_nodup _ _ (inv_newAlign 1) (rect_of_empty_align 1) (by simp [NamesNodup, newAlign])
     (by simp [NameEdit]) (by simp [HistWF, OpWF]) (by simp [HistRectOK, RectOK])
+
+-- the in-place residue operations in a history: `ReverseComplementSequences` on a name given twice, an unknown name and
+-- a second name; `DiffWithFirst` and back with `ReplaceMatchChars`; `Mask` of a window with the gap protected;
+-- `MaskUnique` without reference
+def demoHist4 : List Op :=
+  [.add "a" [65, 67, 71, 84], .add "b" [65, 67, 45, 65], .add "c" [65, 84, 71, 84],
+   .revcompSeqs ["a", "zz", "a", "b"], .revcompSeqs ["b"], .diffFirst, .replaceMatch,
+   .mask "" 1 2 .ambig true false, .maskOcc "" 1 (.char 88)]
+
+set_option maxRecDepth 100000 in
+example : ∃ s' sts, specRun (abs (newAlign 1)) demoHist4 = some (s', sts) ∧
+    abs (finalState (newAlign 1) demoHist4) = s' ∧ (runOps (newAlign 1) demoHist4).map (·.2) = sts ∧
+    s'.rows = [("a", [65, 78, 78, 84]), ("b", [65, 78, 45, 88]), ("c", [65, 78, 78, 84])] ∧
+    sts = ["ok", "ok", "ok", "ok", "ok", "ok", "ok", "ok", "ok"] := by
+  have hsome : (specRun (abs (newAlign 1)) demoHist4).isSome = true := by decide
+  cases h : specRun (abs (newAlign 1)) demoHist4 with
+  | none => rw [h] at hsome; cases hsome
+  | some r =>
+    have := run_refines demoHist4 _ (good_of_empty_align 1) (by simp [demoHist4, HistWFR, OpWFR]) r.1 r.2 h
+    have h2 : (specRun (abs (newAlign 1)) demoHist4).map (fun r => (r.1.rows, r.2)) =
+        some ([("a", [65, 78, 78, 84]), ("b", [65, 78, 45, 88]), ("c", [65, 78, 78, 84])],
+          ["ok", "ok", "ok", "ok", "ok", "ok", "ok", "ok", "ok"]) := by decide
+    rw [h] at h2
+    simp only [Option.map_some, Option.some.injEq, Prod.mk.injEq] at h2
+    exact ⟨r.1, r.2, rfl, this.1, this.2.1, h2.1, h2.2⟩
 
 end Gv.Props.C01
